@@ -92,12 +92,46 @@ def same(a, b, lines=False, cols=False):
     return strip_loc(a[:3], lines, cols) == strip_loc(b[:3], lines, cols) if (lines or cols) else a[:3] == b[:3]
 
 
+F2 = "F2-step-text-completes-a-longer-keyword"
+_LANG_RE = re.compile(r"^\s*#\s*language\s*:\s*([a-zA-Z\-_]+)\s*$")
+
+
+def f2_mechanism(lf, base):
+    """Finding F2: the document has a step line L such that L with one blank appended is prefixed by ANOTHER listed step
+    keyword than L itself (fr 'Et que' -> 'Et ' + 'que', but 'Et que ' -> 'Et que ' + ''): by the keyword rule of C05 the
+    two lines carry different keywords, so trailing blanks on that step line cannot be meaning-neutral.  Decided from the
+    language table and the text alone, never from the code under test."""
+    from .. import dialects
+    lang = "en"
+    for line in lf.split("\n")[:5]:
+        m = _LANG_RE.match(line)
+        if m:
+            lang = m.group(1)
+            break
+        if line.strip() and not line.lstrip().startswith("#"):
+            break
+    spec = dialects.master().get(lang)
+    if spec is None:
+        return None
+    types = base[3]
+    for i, line in enumerate(lf.split("\n")):
+        if types.get(i + 1) != "StepLine":
+            continue
+        t = line.strip()
+        a = dialects.expected_step(spec, t)
+        b = dialects.expected_step(spec, t + " ")
+        if a and b and a[0] != b[0]:
+            return F2
+    return None
+
+
 def check_document(lf, M, case, budget=400):
     """All relations on one LF document (no CR at all)."""
     M.case(h64(lf))
     base = run(lf)
     M.hist("documents", base[0])
-    viol = lambda rel, detail: M.violation("C16." + rel, dict(detail, relation=rel), dict(case, relation=rel, text=lf))
+    viol = lambda rel, detail: M.violation("C16." + rel, dict(detail, relation=rel), dict(case, relation=rel, text=lf),
+                                           mechanism=f2_mechanism(lf, base) if rel == "trailing" else None)
     n = 0
     # 1. CRLF
     r = run(lf.replace("\n", "\r\n"))
@@ -291,7 +325,33 @@ def plan(tier, seed):
     lengths = list(range(1, 201)) + [255, 256, 257, 511, 512, 513, 1023, 1024, 1025]
     for k in range(0, len(lengths), 14):
         specs.append({"family": "long_lines", "lengths": lengths[k:k + 14], "seed": seed, "n": 14, "budget": b})
+    from .. import dialects as _dl
+    names = sorted(_dl.master())
+    for k in range(0, 80, 10):
+        specs.append({"family": "keyword_tails", "dialects": names[k:k + 10], "seed": seed, "n": 10, "budget": b})
     return specs
+
+
+def keyword_tail_documents(d):
+    """Documents in dialect d with a step line that consists of a keyword and, as its whole text, the rest of a LONGER listed
+    keyword that begins with it ('A tiež' for sk 'A ' / 'A tiež '): the line where 'first listed' and 'longest' matching part."""
+    from .. import dialects as dl
+    spec = dl.master()[d]
+    kws = []
+    for k, _ in dl.step_keywords(spec):
+        if k not in kws:
+            kws.append(k)
+    out = []
+    for long_k in kws:
+        t = long_k.rstrip()
+        if t == long_k:
+            continue
+        short = dl.expected_step(spec, t)
+        if short is None or short[0] == long_k:
+            continue
+        lf = "# language: %s\n%s: f\n  %s: s\n    %sx\n    %s\n    %sy\n" % (d, spec["feature"][0], spec["scenario"][0], kws[-1] if kws[-1] != "* " else kws[0], t, kws[0] if kws[0] != "* " else kws[-1])
+        out.append((long_k, lf, 5))
+    return out
 
 
 # characters that some layer might treat specially although Gherkin does not: byte-order marks, zero-width and no-break
@@ -362,7 +422,8 @@ def check_long_line(what, lf, line_no, kind, M, case):
         return
     base = run(lf)
     lines = lf.split("\n")
-    viol = lambda rel, detail: M.violation("C16." + rel, dict(detail, relation=rel, line_kind=kind), dict(case, relation=rel, text=lf))
+    viol = lambda rel, detail: M.violation("C16." + rel, dict(detail, relation=rel, line_kind=kind), dict(case, relation=rel, text=lf),
+                                           mechanism=f2_mechanism(lf, base) if rel == "trailing" else None)
     for k in (1, 2, 3, 4):
         for blanks in (" " * k, "\t" * k):
             L2 = list(lines)
@@ -396,6 +457,14 @@ def run_shard(spec, M):
                 M.count("skipped_lone_cr")
                 continue
             check_document(src.replace("\r\n", "\n"), M, {"kind": "text", "family": "corpus", "path": g["path"]}, budget=spec.get("budget", 400))
+    elif fam == "keyword_tails":
+        for d in spec["dialects"]:
+            for long_k, lf, line_no in keyword_tail_documents(d):
+                M.count("keyword_tail_documents")
+                M.hist("keyword_tail_dialects", d)
+                check_long_line("step whose text is the rest of the longer keyword %r" % long_k, lf, line_no, "StepLine", M,
+                                {"kind": "long_line", "family": fam, "what": "keyword tail " + long_k, "line_no": line_no, "line_kind": "StepLine",
+                                 "budget": spec.get("budget", 40)})
     elif fam == "long_lines":
         for n in spec["lengths"]:
             for what, lf, line_no, kind in long_line_documents(n):
